@@ -1,3 +1,135 @@
 -------------------------------- MODULE C04 --------------------------------
-EXTENDS Naturals
+(***************************************************************************)
+(* Property C04: compiled expressions are immutable, deterministic and     *)
+(* goroutine-safe; one instant per evaluation; Compile calls are isolated. *)
+(*                                                                         *)
+(* This module binds the abstract world of FPRegistryCore to the concrete  *)
+(* one: how a model program is written as FHIRPath source, which calendar  *)
+(* instant an abstract instant stands for, which abstract item (FPValues)  *)
+(* a model item is observed as, and - from these - what the specification  *)
+(* permits for an observed Compile-call history, a gated schedule and a    *)
+(* time program.  C04_MC emits cases, C04_Judge judges observations,       *)
+(* C04_Trace validates stress traces; all three use these definitions.     *)
+(***************************************************************************)
+EXTENDS FPRegistryCore, FPValues
+
+----------------------------------------------------------------------------
+(* Source text.  "bare" is a one-node program written as is (histories);   *)
+(* otherwise the nodes are the arguments of the harness function emitN,    *)
+(* which returns its N singleton arguments as one collection, evaluated    *)
+(* left to right.  gate(%id, k) blocks on a harness channel and yields k.  *)
+RenderNode(nd) ==
+  CASE nd.n = "gate"  -> "gate(%id, " \o ToString(nd.k) \o ")"
+    [] nd.n = "env"   -> "%" \o nd.name
+    [] nd.n = "now"   -> "now()"
+    [] nd.n = "today" -> "today()"
+    [] nd.n = "tod"   -> "timeOfDay()"
+    [] nd.n = "fn"    -> nd.name \o "()"
+    [] nd.n = "res"   -> "%context.id"
+    [] nd.n = "bogus" -> "Patient.name.count().foo"
+    [] nd.n = "pause" -> "pause()"
+
+RECURSIVE RenderArgs(_, _)
+RenderArgs(prog, i) ==
+  IF i > Len(prog) THEN ""
+  ELSE RenderNode(prog[i]) \o (IF i < Len(prog) THEN ", " ELSE "") \o RenderArgs(prog, i + 1)
+RenderEmit(prog) == "emit" \o ToString(Len(prog)) \o "(" \o RenderArgs(prog, 1) \o ")"
+RenderBare(prog) == RenderNode(prog[1])
+
+(* names the harness registers in every Compile call of a schedule/time/   *)
+(* stress program; they are scaffolding, not part of the modelled tables   *)
+Scaffold == {"gate", "pause"} \cup {"emit" \o ToString(n) : n \in 1..12}
+
+----------------------------------------------------------------------------
+(* Instants.  Abstract instants 7, 8, 9 are OverrideTime values. *)
+Cal(inst) ==
+  CASE inst = 7 -> [y |-> 2024, mo |-> 2, d |-> 29, h |-> 23, mi |-> 59, sec |-> 58, ms |-> 123]
+    [] inst = 8 -> [y |-> 1999, mo |-> 1, d |-> 1, h |-> 0, mi |-> 0, sec |-> 0, ms |-> 0]
+    [] inst = 9 -> [y |-> 2025, mo |-> 12, d |-> 31, h |-> 12, mi |-> 30, sec |-> 7, ms |-> 500]
+    [] OTHER    -> [y |-> 1, mo |-> 1, d |-> 1, h |-> 0, mi |-> 0, sec |-> 0, ms |-> 0]
+OverrideInstants == {7, 8, 9}
+Offsets == {0, 330, -210, 765}      \* UTC, +05:30, -03:30, +12:45
+
+DTItem(c, off) == [t |-> "dt", p |-> 7, y |-> c.y, mo |-> c.mo, d |-> c.d, h |-> c.h, mi |-> c.mi,
+                   sec |-> c.sec, ms |-> c.ms, fd |-> 3, tz |-> TRUE, off |-> off]
+DateItem(c) == [t |-> "date", p |-> 3, y |-> c.y, mo |-> c.mo, d |-> c.d]
+TimeItem(c) == [t |-> "time", p |-> 7, h |-> c.h, mi |-> c.mi, sec |-> c.sec, ms |-> c.ms, fd |-> 3]
+
+(* the function registered by option k of Compile call c returns this Integer *)
+Marker(c, k) == c * 100 + k
+
+(* the resources of schedules and stress runs: Patient r has id "p<r>" *)
+ResIdCp(r) == <<112, 48 + r>>
+
+(* Concrete evaluate option: the model option plus the calendar fields of its instant *)
+ConcEOpt(o) == [o |-> o.o, name |-> o.name, val |-> o.val, inst |-> o.inst, off |-> o.off, cal |-> Cal(o.inst)]
+ConcECall(v, call) == [v |-> v, eid |-> call.eid, r |-> call.r, opts |-> [k \in 1..Len(call.opts) |-> ConcEOpt(call.opts[k])]]
+
+----------------------------------------------------------------------------
+(* Matching an observed item against a model item.  Observed items are the *)
+(* abstract items of FPValues; every temporal item additionally carries    *)
+(* eday/ems (its instant as epoch day and millisecond of the day, computed  *)
+(* by the harness from the item's own fields).                              *)
+HasOverride(opts) == \E k \in 1..Len(opts) : opts[k].o = "time"
+
+MatchFixed(o, it) ==
+  CASE it.t = "int"   -> o.t = "i" /\ o.i = it.a
+    [] it.t = "now"   -> o.t = "dt" /\ ItemSame(o, DTItem(Cal(it.a), it.b))
+    [] it.t = "today" -> o.t = "date" /\ ItemSame(o, DateItem(Cal(it.a)))
+    [] it.t = "tod"   -> o.t = "time" /\ ItemSame(o, TimeItem(Cal(it.a)))
+    [] it.t = "fn"    -> IF it.s = "custom" THEN o.t = "i" /\ o.i = Marker(it.a, it.b)
+                         ELSE TRUE      \* a built-in: its behaviour is not C04's business
+    [] it.t = "res"   -> o.t = "el" /\ o.v.t = "s" /\ o.v.cp = ResIdCp(it.a)
+    [] OTHER -> FALSE
+
+(* positions of time items in a model result *)
+TimeIdx(items, f) == {i \in 1..Len(items) : items[i].t = f}
+
+LeInst(a, b) == a.eday < b.eday \/ (a.eday = b.eday /\ a.ems <= b.ems)
+
+(* Without OverrideTime: every now() of the evaluation is the same value, it *)
+(* lies between the start and the end of the call (bracket measured by the   *)
+(* calling goroutine itself), and today()/timeOfDay() are its date and time  *)
+(* parts.                                                                    *)
+FreeTimeOK(obsItems, modelItems, t0, t1) ==
+  LET nows == TimeIdx(modelItems, "now")
+  IN /\ \A i \in nows : /\ obsItems[i].t = "dt" /\ obsItems[i].p = 7 /\ obsItems[i].tz
+                        /\ LeInst(t0, obsItems[i]) /\ LeInst(obsItems[i], t1)
+     /\ \A i, j \in nows : ItemSame(obsItems[i], obsItems[j])
+     /\ \A i \in TimeIdx(modelItems, "today") :
+          /\ obsItems[i].t = "date" /\ obsItems[i].p = 3
+          /\ \A j \in nows : obsItems[i].y = obsItems[j].y /\ obsItems[i].mo = obsItems[j].mo /\ obsItems[i].d = obsItems[j].d
+     /\ \A i \in TimeIdx(modelItems, "tod") :
+          /\ obsItems[i].t = "time"
+          /\ \A j \in nows : /\ obsItems[i].h = obsItems[j].h /\ obsItems[i].mi = obsItems[j].mi
+                             /\ obsItems[i].sec = obsItems[j].sec /\ obsItems[i].ms = obsItems[j].ms
+
+(* Does an observed outcome agree with the denotation `den` (OkRes/ErrRes)  *)
+(* of an evaluation whose options are `opts`?                               *)
+EvalMatches(out, den, opts, t0, t1) ==
+  IF den.k = "err" THEN out.k = "err"
+  ELSE /\ out.k = "ok" /\ Len(out.items) = Len(den.items)
+       /\ \A i \in 1..Len(den.items) :
+            (HasOverride(opts) \/ ~IsTimeItem(den.items[i])) => MatchFixed(out.items[i], den.items[i])
+       /\ HasOverride(opts) \/ FreeTimeOK(out.items, den.items, t0, t1)
+
+(* a short classification of a mismatch, for signatures *)
+EvalDiff(out, den, opts, t0, t1) ==
+  IF out.k \in {"panic", "timeout"} THEN out.k
+  ELSE IF den.k = "err" THEN "want-err-got-" \o out.k
+  ELSE IF out.k # "ok" THEN "want-ok-got-" \o out.k
+  ELSE IF Len(out.items) # Len(den.items) THEN "item-count"
+  ELSE IF \E i \in 1..Len(den.items) : ~IsTimeItem(den.items[i]) /\ ~MatchFixed(out.items[i], den.items[i])
+         THEN LET i == CHOOSE i \in 1..Len(den.items) : ~IsTimeItem(den.items[i]) /\ ~MatchFixed(out.items[i], den.items[i])
+              IN "item-" \o den.items[i].t
+  ELSE IF HasOverride(opts) THEN "override-instant"
+  ELSE "free-instant"
+
+----------------------------------------------------------------------------
+(* short codes of Compile calls, used in case ids and signatures *)
+OptCode(o) == CASE o.o = "add" -> (CASE o.name = "vfA" -> "A" [] o.name = "vfB" -> "B" [] o.name = "exists" -> "E" [] o.name = "join" -> "J" [] OTHER -> "?")
+                [] o.o = "exp" -> "X" [] o.o = "perm" -> "P" [] o.o = "xform" -> "T"
+RECURSIVE OptCodes(_, _)
+OptCodes(os, k) == IF k > Len(os) THEN "" ELSE OptCode(os[k]) \o OptCodes(os, k + 1)
+CallCode(call) == (IF call.api = "patch" THEN "p" ELSE "f") \o OptCodes(call.opts, 1)
 =============================================================================
